@@ -11,5 +11,6 @@ open Biogo.Properties.C16
 #print axioms duplicate_rejected
 #print axioms rejected_changes_nothing
 #print axioms filter_keeps_intervals
+#print axioms loc_filter_on_final_piles
 #print axioms checker_sound
 #print axioms adds_expect
